@@ -42,7 +42,7 @@ fn run(ctx: &Ctx) {
     ctx.run_tape("splits", splits, ctx.pick(18_000, 300_000), 600);
     ctx.run_tape("refusals", refusals, ctx.pick(12_000, 200_000), 600);
     ctx.run_tape("history", history, ctx.pick(18_000, 300_000), if ctx.tier == Tier::Quick { 1200 } else { 3000 });
-    ctx.run_tape("cap", cap, ctx.pick(6, 120), 64);
+    ctx.run_tape("cap", cap, ctx.pick(12, 120), 64);
 }
 
 pub const MAX_DATA: usize = 10 * 1024 * 1024;
@@ -303,8 +303,14 @@ fn splits(t: &mut Tape, obs: &mut Obs) -> R {
     if frags.iter().any(|f| f.is_empty()) {
         obs.class("has-empty-fragment");
     }
+    // the fragments of one message may travel in records of different versions (the record version selects nothing)
+    let vary_version = t.bool();
+    if vary_version {
+        obs.class("record-version-varies");
+    }
     for (i, f) in frags.iter().enumerate() {
-        let rec = Rec::new(ctype, version, f.clone());
+        let v = if vary_version && i > 0 { gen_version(t) } else { version };
+        let rec = Rec::new(ctype, v, f.clone());
         let got = guard("TlsRecordsParser::parse_record", || summarize(p.parse_record(rec.raw())))?;
         if i + 1 < frags.len() {
             ensure!(matches!(got, Sum::Incomplete(_)), "C07:splits:not-incomplete", "fragment {} of {} ({} bytes, split {}): every call but the last must answer Incomplete, got {}", i + 1, frags.len(), f.len(), descr, show_sum(&got));
@@ -398,7 +404,8 @@ pub fn gen_ops(t: &mut Tape, max_ops: usize) -> Vec<Op> {
                 let k = 1 + t.below(6);
                 let cuts = gen_cuts(t, first, k);
                 let version = gen_version(t);
-                queue = fragments(&payload, &cuts).into_iter().map(|f| Rec::new(ctype, version, f)).collect();
+                let vary = t.chance(100);
+                queue = fragments(&payload, &cuts).into_iter().map(|f| Rec::new(ctype, if vary { gen_version(t) } else { version }, f)).collect();
                 if t.chance(30) {
                     // never-completing variant: drop the last fragment
                     queue.pop();
@@ -491,13 +498,22 @@ fn cap(t: &mut Tape, obs: &mut Obs) -> R {
     let mut m = Model::default();
     let sizes = [16640usize, 16384, 16640, 4096, 1, 0, 12345];
     let mode = t.below(2);
+    // hand-built continuation records whose public hdr.len disagrees with data.len(): the limit counts the bytes that are buffered
+    let hmode = t.below(3);
     let mut total = 0usize;
     let mut refused = 0;
     let mut calls = 0;
     let mut data = first.buf.clone();
     let mut completed = false;
     loop {
-        let rec = Rec::new(ctype, 0x0303, data.clone());
+        let mut rec = Rec::new(ctype, 0x0303, data.clone());
+        if calls > 0 && ctype == 0x16 {
+            match hmode {
+                1 => rec.len = 0,
+                2 => rec.len = 16640,
+                _ => {}
+            }
+        }
         let before = m.buf.len();
         let got = step(&mut p, &mut m, &Op::Parse(rec), "oversize stream")?;
         calls += 1;
@@ -515,7 +531,7 @@ fn cap(t: &mut Tape, obs: &mut Obs) -> R {
             }
             o => return fail("C07:cap:unexpected", format!("oversize stream: call {} answered {}", calls, show_sum(&o))),
         }
-        let n = if mode == 0 { 16640 } else { sizes[t.below(sizes.len())] };
+        let n = if hmode == 2 && ctype == 0x16 { 8192 + t.below(8) } else if mode == 0 { 16640 } else { sizes[t.below(sizes.len())] };
         data = vec![0x5a; n];
         if calls > 20000 {
             return fail("C07:cap:never-refused", format!("{} bytes buffered after {} calls and no refusal", total, calls));
@@ -535,7 +551,14 @@ fn cap(t: &mut Tape, obs: &mut Obs) -> R {
         // exact boundary: a fragment that would bring the buffer to exactly 10 MiB is refused, one byte less is taken
         let room = MAX_DATA - m.buf.len();
         for (n, want_refusal) in [(room, true), (room + 1, true), (room - 1, false), (1, true), (0, false)] {
-            let rec = Rec::new(ctype, 0x0303, vec![0xa5; n]);
+            let mut rec = Rec::new(ctype, 0x0303, vec![0xa5; n]);
+            if ctype == 0x16 {
+                match hmode {
+                    1 => rec.len = 0,
+                    2 => rec.len = 16640,
+                    _ => {}
+                }
+            }
             let blen = m.buf.len();
             let got = step(&mut p, &mut m, &Op::Parse(rec), "oversize stream, boundary")?;
             calls += 1;
@@ -551,6 +574,7 @@ fn cap(t: &mut Tape, obs: &mut Obs) -> R {
     }
     obs.nontrivial(fnv64(format!("{}/{}/{}/{}", ctype, mode, total, calls).as_bytes()));
     obs.class(if refused > 0 { "reached-limit" } else { "completed-before-limit" });
+    obs.class(["hdr.len=data.len", "hdr.len=0", "hdr.len=16640>data.len"][if ctype == 0x16 { hmode } else { 0 }]);
     obs.sample(json!({"content_type": ctype, "calls": calls, "bytes_buffered": total, "refused_with_TooLarge": refused, "final_buffer": p.verif_defrag_buffer().len()}));
     Ok(())
 }
